@@ -562,7 +562,7 @@ fn huge_screens(ctx: &mut Ctx) {
             format!("\x1b[4G\x1b[1K"),
             format!("\x1b[{};{}H{wide}{wide}", rows, h - 2),
             format!("\x1b[1;65535Hz\x1b[32my"),
-            format!("\x1b[{}G\x1b[31mw\x1b[1;2H", h - 11000),
+            format!("\x1b[{}G\x1b[31mw\x1b[1;2H", h.saturating_sub(11000).max(2)),
         ];
         for (k, st) in steps.iter().enumerate() {
             ctx.sess.checked(&format!("P {}", hex(st.as_bytes())), "Huge");
@@ -578,7 +578,7 @@ fn huge_screens(ctx: &mut Ctx) {
         ctx.sess.checked(&format!("C 0 {} {} 3", h - 5, rows - 1), "C");
         ctx.sess.checked("F cursor", "F");
         ctx.sess.snapshot(0);
-        ctx.sess.checked(&format!("P {}", hex(format!("\x1b[1;{}HQ\x1b[1;3H", h - 10500).as_bytes())), "Huge");
+        ctx.sess.checked(&format!("P {}", hex(format!("\x1b[1;{}HQ\x1b[1;3H", h.saturating_sub(10500).max(3)).as_bytes())), "Huge");
         ctx.sess.checked("X state 0", "X");
         let mut dirty = None;
         let mut chain = None;
